@@ -4,7 +4,7 @@ from ..scen_parser import tokenizer
 
 
 def run(ctx):
-    read_input(ctx, ['read.ignore_silent', 'read.panic_fails', 'read.stdout_reports', 'read.stderr_reports', 'read.clean_no_report', 'read.one_context_per_value', 'read.counters'])      # noise must not shift &index either
+    read_input(ctx, ['read.ignore_silent', 'read.recoverable_continues', 'read.panic_fails', 'read.stdout_reports', 'read.stderr_reports', 'read.clean_no_report', 'read.one_context_per_value', 'read.counters'])      # noise must not shift &index either
     n = 3 if ctx.quick else 4
     tokenizer(ctx, n, ['tok.garbage', 'tok.value', 'tok.consumed', 'tok.end'], f'full alphabet n={n}: a garbage byte costs exactly one byte and one recoverable error, whatever follows')
     from ..scen_files import file_sources
